@@ -38,6 +38,7 @@ package main
 
 import (
 	"fmt"
+	"math/rand"
 	"os"
 	"path/filepath"
 	"runtime"
@@ -683,10 +684,14 @@ func genProto(g *Gen) {
 		scs = append(scs, sc{t, "handler:begin"}, sc{t, "blocks:3"})
 	}
 	// the queue filled to the accept limit while the task in hand is re-queued (eng_proto_fullq.go): deterministic, cheap
+	// (own random source derived from the seed: the histories below are the same as without these)
+	saved := g.Rng
+	g.Rng = rand.New(rand.NewSource(g.Seed*1000003 + 2003))
 	for i := 0; i < g.Scale(1, 4); i++ {
 		genProtoFullQueue(g, "retry")
 		genProtoFullQueue(g, "batches")
 	}
+	g.Rng = saved
 	// first of all: the placement whose outcome depends on the follower's random select, repeated inside one
 	// op (8 attempts: a skeleton that can hang there with probability 1/2 per attempt is caught with 1 - 2^-8)
 	for i := 0; i < g.Scale(1, 3); i++ {
